@@ -30,7 +30,9 @@ type c20Config struct {
 	TTL     int   `json:"default_ttl_s"`
 }
 
-func (c c20Config) String() string { return fmt.Sprintf("cap=%d,max=%d,ttl=%ds", c.Cap, c.MaxSize, c.TTL) }
+func (c c20Config) String() string {
+	return fmt.Sprintf("cap=%d,max=%d,ttl=%ds", c.Cap, c.MaxSize, c.TTL)
+}
 
 type c20Event struct {
 	Op   string   `json:"op"`
@@ -67,13 +69,17 @@ func c20Alphabet(thorough bool) []c20Event {
 		ev = append(ev, c20Event{Op: "get", Key: k})
 	}
 	for _, k := range keys {
-		for _, s := range []int{1, 3, 5, 9} {
+		for _, s := range []int{2, 3, 5, 9} {
 			ev = append(ev, c20Event{Op: "set", Key: k, Size: s})
 		}
-		ev = append(ev, c20Event{Op: "set", Key: k, Size: 1, TTL: 5})
+		ev = append(ev, c20Event{Op: "set", Key: k, Size: 2, TTL: 5})
 		ev = append(ev, c20Event{Op: "set", Key: k, Size: 3, TTL: -1})
 	}
-	ev = append(ev, c20Event{Op: "settags", Key: "a", Size: 1, Tags: []string{"t"}})
+	if !thorough {
+		// a third key (one size only) so that recency order matters at capacity 2
+		ev = append(ev, c20Event{Op: "get", Key: "c"}, c20Event{Op: "set", Key: "c", Size: 2})
+	}
+	ev = append(ev, c20Event{Op: "settags", Key: "a", Size: 2, Tags: []string{"t"}})
 	ev = append(ev, c20Event{Op: "settags", Key: "b", Size: 3, Tags: []string{"t", "u"}})
 	for _, k := range keys {
 		ev = append(ev, c20Event{Op: "delete", Key: k})
@@ -94,7 +100,7 @@ func c20Alphabet(thorough bool) []c20Event {
 func c20Configs(thorough bool) []c20Config {
 	var out []c20Config
 	for _, cp := range []int{0, 1, 2, 3} {
-		for _, ms := range []int64{0, 1, 4, 8} {
+		for _, ms := range []int64{0, 2, 4, 8} {
 			for _, ttl := range []int{0, 10} {
 				out = append(out, c20Config{cp, ms, ttl})
 			}
@@ -189,14 +195,13 @@ func (s *c20Sys) canon() string {
 	var b strings.Builder
 	l, _ := s.implList()
 	for _, e := range l {
-		x := int64(e.exp / time.Second)
-		if e.exp >= 0 && e.exp < 0 {
-			x = -2
+		x := fmt.Sprint(int64(e.exp / time.Second))
+		if e.exp == -1 {
+			x = "none"
+		} else if e.exp < 0 {
+			x = "expired"
 		}
-		if e.exp != -1 && e.exp < 0 {
-			x = -2
-		}
-		fmt.Fprintf(&b, "%s=%s/%d/%d/%s;", e.key, e.val, e.size, x, e.tags)
+		fmt.Fprintf(&b, "%s=%s/%d/%s/%s;", e.key, e.val, e.size, x, e.tags)
 	}
 	fmt.Fprintf(&b, "|sz=%d|ec=%d|ph=%d|", s.c.currentSize, s.c.stats.EntryCount, int64(s.ref.now/time.Second)%60)
 	keys := make([]string, 0, len(s.ref.m))
@@ -239,7 +244,7 @@ func (s *c20Sys) nextVal(key string, size int) string {
 	for len(v) < size {
 		v += ch
 	}
-	return v[:max(size, 1)]
+	return v[:max(size, 2)]
 }
 
 // apply runs one event on implementation and reference and returns a
@@ -267,6 +272,10 @@ func (s *c20Sys) apply(e c20Event) string {
 	}
 	var fail string
 	setLike := false
+	refSeqBefore := map[string]int{}
+	for k, en := range ref.m {
+		refSeqBefore[k] = en.seq
+	}
 	switch e.Op {
 	case "get":
 		v, ok := c.Get(e.Key)
@@ -383,15 +392,16 @@ func (s *c20Sys) apply(e c20Event) string {
 		for _, x := range after {
 			present[x.key] = true
 		}
-		// unexpired entries before, coldest first
+		// unexpired entries before, coldest first by the reference's recency
+		// order (last successful Get or Set), not by the implementation's list
 		var cold []implEntry
-		for i := len(before) - 1; i >= 0; i-- {
-			b := before[i]
-			if b.key == e.Key || (b.exp != -1 && b.exp < 0) {
+		for _, b := range before {
+			if b.key == e.Key || (b.exp != -1 && b.exp < 0) || refSeqBefore[b.key] == 0 {
 				continue
 			}
 			cold = append(cold, b)
 		}
+		sort.Slice(cold, func(i, j int) bool { return refSeqBefore[cold[i].key] < refSeqBefore[cold[j].key] })
 		evicted := 0
 		gap := false
 		for _, b := range cold {
@@ -422,18 +432,18 @@ func (s *c20Sys) apply(e c20Event) string {
 // ---------------------------------------------------------------------------
 
 type c20Replay struct {
-	Part     string      `json:"part"`
-	Config   c20Config   `json:"config"`
-	Events   []c20Event  `json:"events,omitempty"`
-	Scenario string      `json:"scenario,omitempty"`
-	Choices  []int       `json:"choices,omitempty"`
+	Part     string     `json:"part"`
+	Config   c20Config  `json:"config"`
+	Events   []c20Event `json:"events,omitempty"`
+	Scenario string     `json:"scenario,omitempty"`
+	Choices  []int      `json:"choices,omitempty"`
 }
 
 // runHistory executes events on a fresh cache inside a controlled run
 // (default schedule) and returns (canonical state, failure, hung).
 func c20RunHistory(cfg c20Config, events []c20Event) (canon, fail string, hung bool) {
 	var x *vrt.Exec
-	returned, p := vk.WithWatchdog(20*time.Second, func() {
+	returned, p := vk.WithWatchdog(10*time.Second, func() {
 		x = vrt.RunOnce(vrt.Config{NoAutoTimers: true}, nil, func() {
 			s := newC20Sys(cfg)
 			defer s.c.Close()
@@ -556,7 +566,7 @@ func TestVerif_C20(t *testing.T) {
 			if hg {
 				hung = true
 				res.Violate(c20Key(cfg, evs[len(evs)-1], "did not return"),
-					fmt.Sprintf("%s: %s did not return within 20 s (history %v)", cfg, evs[len(evs)-1], evs),
+					fmt.Sprintf("%s: %s did not return within 10 s (history %v)", cfg, evs[len(evs)-1], evs),
 					c20Replay{Part: "seq", Config: cfg, Events: evs})
 				return "", false
 			}
